@@ -337,6 +337,10 @@ Fixpoint rp_fsr_levels (fuel : nat) (d : sigdef) (w : rp_w) (t : wm_track) (f : 
       | Some lv =>
         let '(s1, rc1) := rp_rd_chunk (rp_w_io w) in                        (* index *)
         if negb (rc1 =? 0) then (rp_w_set_io w s1, t, f, offset, skip, 0)
+        (* since /repo cf5fc54: not an INDEX chunk of this signal and level: break *)
+        else if negb (fm_tag (wm_ck_hdr (rp_cur s1)) =? JLS_TAG_TRACK_FSR_INDEX)
+                || negb (fm_chunk_meta (wm_ck_hdr (rp_cur s1)) =? wm_meta (sg_id d) level)
+        then (rp_w_set_io w s1, t, f, offset, skip, 0)
         else
           let index_head := rp_cur s1 in
           let pl_i := fm_payload_length (wm_ck_hdr index_head) in
@@ -346,6 +350,10 @@ Fixpoint rp_fsr_levels (fuel : nat) (d : sigdef) (w : rp_w) (t : wm_track) (f : 
           let f1 := rp_fsr_set_level f level lv1 in
           let '(s2, rc2) := rp_rd_chunk s1a in                               (* summary *)
           if negb (rc2 =? 0) then (rp_w_set_io w (if complete then s2 else rp_io_fault s2 RpF_buf), t, f1, offset, skip, 0)
+          (* the chunk that follows is not this index's SUMMARY: break (the index is already in the level buffer) *)
+          else if negb (fm_tag (wm_ck_hdr (rp_cur s2)) =? JLS_TAG_TRACK_FSR_SUMMARY)
+                  || negb (fm_chunk_meta (wm_ck_hdr (rp_cur s2)) =? wm_meta (sg_id d) level)
+          then (rp_w_set_io w (if complete then s2 else rp_io_fault s2 RpF_buf), t, f1, offset, skip, 0)
           else
             let summary_head := rp_cur s2 in
             let pl_s := fm_payload_length (wm_ck_hdr summary_head) in
